@@ -15,6 +15,8 @@ import Pysmi.Generated.LexTables
 import Pysmi.Model.LR
 import Pysmi.Model.PyStr
 import Pysmi.Model.Imports
+import Pysmi.Model.Pysnmp
+import Pysmi.Generated.Pysnmp
 import Pysmi.Generated.Smiv1
 /-!
 Line-protocol driver: one JSON object per input line, one JSON value per output line.
@@ -613,6 +615,24 @@ def opImports (j : Json) : Except String Json := do
                      ("converted", jImports (convert Pysmi.Generated.Smiv1.convertImportv2 imp))]
 end Im
 
+/-! ### op: pysnmp (C04) -/
+namespace Ps
+open Pysmi.Pysnmp
+
+def opPysnmp (j : Json) : Except String Json := do
+  let recs ← getList (fun e => do
+    let a ← e.getArr?
+    let n ← (a[0]?.getD Json.null).getStr?
+    let o := a[1]?.getD Json.null
+    let oid ← (match o with
+      | .null => pure none
+      | _ => do let l ← getList (fun x => x.getNat?) o; pure (some l) : Except String (Option (List Nat)))
+    return ({ name := n, oid := oid } : Rec)) (← j.getObjVal? "records")
+  let syms ← getList (fun x => x.getStr?) (← j.getObjVal? "symbols")
+  return Json.mkObj [("order", .arr ((sortByOid recs).map (fun r => Json.str r.name)).toArray),
+                     ("expanded", .arr ((expandImports Pysmi.Generated.Pysnmp.smiObjects syms).map Json.str).toArray)]
+end Ps
+
 /-! ### ops: tables (load a parser export) / parse -/
 namespace Pr
 open Pysmi.Py Pysmi.LR
@@ -761,6 +781,7 @@ def handle (j : Json) : Except String Json := do
   | "lex" => Lx.opLex j
   | "text" => Tx.opText j
   | "imports" => Im.opImports j
+  | "pysnmp" => Ps.opPysnmp j
   | "put2" => Wr.opPut2 j
   | _ => throw s!"unknown op {op}"
 
